@@ -51,7 +51,7 @@ def generate(prop, rng):
     )
     tree = gen.gen_tree(rng, range(len(pool)), max_files=rng.randint(2, 5), max_depth=2)
     if fam == "index_save" and not any("/" in r for r in tree):
-        tree["d/" + rng.choice(gen.NAMES)] = rng.randrange(len(pool))
+        tree["nested-dir/" + rng.choice(gen.NAMES)] = rng.randrange(len(pool))
     cfg = {
         "family": fam,
         "reflink": gen.weighted(rng, [(3, "enotsup"), (5, "nocow"), (3, "cow")]),
@@ -70,8 +70,11 @@ def generate(prop, rng):
         tree2 = {"s_" + rel.replace("/", "_"): ci for rel, ci in list(tree.items())[: rng.randint(1, 2)]}
         if rng.random() < 0.6:
             tree2["own"] = rng.randrange(len(pool))
-        cfg["multi_dest"] = rng.choice(["local", "remote"])
+        cfg["multi_dest"] = rng.choice(["local", "local", "remote"])
         cfg["use_index"] = rng.random() < 0.7
+        # how the request is sent: transfer(cache_odb=dest) as index.push does, transfer()
+        # with the default cache_odb (= source), or through index collect()+push()
+        cfg["multi_via"] = rng.choice(["cache_odb_dest", "cache_odb_default", "index_push"])
     sc = {
         "prop": prop,
         "cfg": cfg,
@@ -89,6 +92,9 @@ def generate(prop, rng):
 def valid(sc):
     t = sc["tree"]
     if not t:
+        return False
+    ks = sorted(t)
+    if any(b.startswith(a + "/") for a in ks for b in ks if a != b):
         return False
     if sc["cfg"]["family"] == "index_save" and not any("/" in r for r in t):
         return False
@@ -252,6 +258,24 @@ class Env:
             src = w.odb("src", "local")
             dest = w.odb("rs", "remote") if cfg["multi_dest"] == "remote" else self.cache()
             ids = {doid, d2} | set(ents.values()) | set(ents2.values())
+            via = cfg.get("multi_via", "cache_odb_dest")
+            if via == "index_push":
+                from dvc_data.hashfile.meta import Meta
+                from dvc_data.index import DataIndex, DataIndexEntry, ObjectStorage
+                from dvc_data.index.collect import collect
+                from dvc_data.index.push import push
+
+                if cfg["multi_dest"] == "remote":
+                    dest = w.odb("rs", "remote", **({"tmp_dir": w.p("tmp")} if cfg.get("use_index") else {}))
+                elif not cfg.get("use_index"):
+                    dest = w.odb("cache", "local", state=self.open_state())
+                idx = DataIndex()
+                idx[("o1",)] = DataIndexEntry(key=("o1",), meta=Meta(isdir=True), hash_info=HashInfo("md5", doid))
+                idx[("o2",)] = DataIndexEntry(key=("o2",), meta=Meta(isdir=True), hash_info=HashInfo("md5", d2))
+                idx.storage_map.add_cache(ObjectStorage((), src))
+                idx.storage_map.add_remote(ObjectStorage((), dest))
+                pushed, failed = push(collect([idx], "remote", push=True), jobs=cfg["jobs"])
+                return ["<push reported %d failed>" % failed] if failed else []
             index = None
             if cfg.get("use_index"):
                 from dvc_data.hashfile.db.index import ObjectDBIndex
@@ -259,7 +283,7 @@ class Env:
                 index = ObjectDBIndex(w.p("tmp"), "destidx")
             try:
                 r = transfer(src, dest, {HashInfo("md5", o) for o in ids}, jobs=cfg["jobs"], dest_index=index,
-                             cache_odb=dest, shallow=True)
+                             cache_odb=dest if via == "cache_odb_dest" else None, shallow=True)
             finally:
                 if index is not None:
                     index.close()
